@@ -43,9 +43,9 @@ def cases(max_ops):
 
 def build(case, cap):
     spec = dict(case['spec'])
-    if spec['curve'] == 'LShape' and spec.get('xs') is None:
+    if spec['curve'] == 'LShape' and spec.get('xs') is None and case['data'] in ('initial', 'both'):
         spec['xs'] = [float(i) for i in range(9)]
-    live = Live(spec)
+    live = Live(spec, min_hx=1e-4)
     from vlib.meshreal import select
     applied = []
     for op in case['ops']:
@@ -131,9 +131,17 @@ def body(case, rec, cap):
         if kind == 'prolong':
             coarse = list(elems)
             cboxes = [live.skey(e) for e in coarse]
-            for op in case['more']:
+            more = list(case['more'])
+            cut = len(more) if case['workers'] % 3 == 0 else len(more) // 2
+            for op in more[:cut]:
                 apply_op(live, op, cap=4 * cap)
             fine = live.leaves()
+            # the nested meshes are snapshots of one refinement history: the mesh may have been refined further
+            # after the fine snapshot was taken (and the identity prolongation of an old snapshot is legitimate too)
+            for op in more[cut:]:
+                apply_op(live, op, cap=4 * cap)
+            if case['workers'] % 4 == 1:
+                fine = list(coarse)
             vec = np.array([float(case['rnd'][i % len(case['rnd'])]) + i for i in range(len(coarse))])
             with repo.quiet():
                 out = np.asarray(Prolongate(vec, coarse, fine), dtype=float)
@@ -145,7 +153,7 @@ def body(case, rec, cap):
                 rec.violation(B('mismatch'), {'n_coarse': len(coarse), 'n_fine': len(fine)}, cj)
             return
         g, wants_M0, dname = data_parts(case, dom)
-        if wants_M0 and case['spec'].get('xs') is not None:
+        if wants_M0 and (case['spec'].get('xs') is not None):
             # the load vector needs space intervals that are dyadic pieces of unit side pieces (precondition of C08)
             wants_M0 = False
             dname = {'initial': 'dirichlet', 'both': 'dirichlet'}[dname]
@@ -177,7 +185,7 @@ def body(case, rec, cap):
         else:
             Phi = np.full(N, 0.7)
         # ---- independent fine mesh: replay + real uniform refinement
-        copy = Live(spec)
+        copy = Live(spec, min_hx=1e-4)
         for op in applied:
             apply_op(copy, op, cap=10**9)
         ckeys = [copy.skey(e).key for e in copy.leaves()]
